@@ -14,7 +14,7 @@
      4. maps_unobservable_any (two arbitrary lawful maps), maps_unobservable_all (the matrix),
         maps_unobservable_three (the three pairs spelled out);
      5. silent_ops_invisible_all, hash_invisible_all, rebase_invisible_all, intra_is_flush_all;
-     6. (to follow in the next delivery) nodes_shape, cdivN, snodes_canon_packed_le (the bound 2*ceil(len/pf) + 2*depth + 1),
+     6. nodes_shape, cdivN, snodes_canon_packed_le (the bound 2*ceil(len/pf) + 2*depth + 1),
         hinv_node_bound, reachable_node_bound (generic), reachable_node_bound_all (the matrix),
         reachable_node_bound_capfree (a bound in which capN does not occur).
    Proof file; no model code. *)
@@ -451,6 +451,188 @@ Proof.
   exact (intra_is_flush_closed ek M uinv EKW TRI ECO (map_ok_lawful T ek U M uinv KM) capN vec_based os k).
 Qed.
 
+(* ====================================================================== *)
+(* 6. C10 at run level: the size of every live tree                          *)
+(* ====================================================================== *)
+(* the number of nodes of a tree is the number of nodes of its shape *)
+Lemma nodes_shape {T} (t : tree T) : lenN (nodes t) = snodes (shape t).
+Proof.
+  induction t as [i v|i vs|i l IHl r IHr|i d]; cbn [nodes shape snodes]; try reflexivity.
+  rewrite lenN_cons, lenN_app, IHl, IHr. lia.
+Qed.
+
+(* ceil (a / b) *)
+Definition cdivN (a b : N) : N := (a + b - 1) / b.
+
+Lemma cdivN_mono a a' b : a <= a' -> cdivN a b <= cdivN a' b.
+Proof.
+  intros Ha. unfold cdivN. destruct (N.eq_dec b 0) as [->|Hb].
+  - destruct (a + 0 - 1), (a' + 0 - 1); cbn; lia.
+  - apply N.div_le_mono; lia.
+Qed.
+Lemma cdivN_add_mul q r b : 0 < b -> cdivN (q * b + r) b = q + cdivN r b.
+Proof.
+  intros Hb. unfold cdivN. replace (q * b + r + b - 1) with (q * b + (r + b - 1)) by lia.
+  apply N.div_add_l. lia.
+Qed.
+Lemma cdivN_1 a : cdivN a 1 = a.
+Proof. unfold cdivN. rewrite N.div_1_r. lia. Qed.
+Lemma cdivN_le a b : 0 < b -> cdivN a b <= a.
+Proof.
+  intros Hb. unfold cdivN. destruct (N.eq_dec a 0) as [->|Ha].
+  - rewrite N.div_small by lia. lia.
+  - apply N.div_le_upper_bound; [lia|]. nia.
+Qed.
+
+Section NodeCount.
+  Context {T : Type}.
+  Variable ek : ekind T.
+
+  Lemma cap_pf d : cap ek d = pow2 d * pf_of ek.
+  Proof. unfold cap, pf_of. apply pow2_add. Qed.
+
+  (* a full subtree of depth dd has exactly 2^(dd+1) - 1 nodes, whatever the packing factor *)
+  Lemma snodes_canon_full_eq : forall dd l, lenN l = cap ek dd -> snodes (canon ek dd l) + 1 = 2 * pow2 dd.
+  Proof.
+    induction dd as [|dd IH]; intros l F.
+    - pose proof (full_ne ek _ _ F) as Hne. destruct l as [|v l]; [congruence|]. cbn [canon].
+      destruct (is_packed ek); reflexivity.
+    - rewrite (canon_S ek) by (eapply (full_ne ek); exact F). cbn [snodes]. rewrite cap_S in F.
+      pose proof (cap_pos ek dd) as Hc.
+      assert (F1 : lenN (takeN (cap ek dd) l) = cap ek dd) by (rewrite lenN_takeN; lia).
+      assert (F2 : lenN (dropN (cap ek dd) l) = cap ek dd) by (rewrite lenN_dropN; lia).
+      apply IH in F1. apply IH in F2. rewrite pow2_S. lia.
+  Qed.
+
+  (* the node bound of DESIGN (C10): 2 * ceil(len / pf) + 2 * depth + 1 *)
+  Theorem snodes_canon_packed_le : forall dd l,
+    snodes (canon ek dd l) <= 2 * cdivN (lenN l) (pf_of ek) + 2 * N.of_nat dd + 1.
+  Proof.
+    induction dd as [|dd IH]; intros l.
+    - destruct l as [|v l]; cbn [canon]; [cbn [snodes]; lia|]. destruct (is_packed ek); cbn [snodes]; lia.
+    - destruct l as [|v l']; [cbn [canon snodes]; lia|]. remember (v :: l') as l eqn:El.
+      rewrite (canon_S ek) by (subst l; discriminate). cbn [snodes].
+      destruct (N.le_gt_cases (lenN l) (cap ek dd)) as [Hle|Hgt].
+      + rewrite takeN_all, dropN_all by auto. rewrite (canon_nil ek). cbn [snodes]. specialize (IH l). lia.
+      + assert (F1 : lenN (takeN (cap ek dd) l) = cap ek dd) by (rewrite lenN_takeN; lia).
+        pose proof (snodes_canon_full_eq _ _ F1) as E1. specialize (IH (dropN (cap ek dd) l)).
+        assert (Ec : cdivN (lenN l) (pf_of ek) = pow2 dd + cdivN (lenN (dropN (cap ek dd) l)) (pf_of ek)).
+        { rewrite <- cdivN_add_mul by apply pow2_pos. f_equal. rewrite <- cap_pf, lenN_dropN. lia. }
+        rewrite Ec. remember (cdivN (lenN (dropN (cap ek dd) l)) (pf_of ek)) as c eqn:Hc'. clear Hc'.
+        remember (pow2 dd) as p eqn:Hp. clear Hp.
+        remember (snodes (canon ek dd (takeN (cap ek dd) l))) as x eqn:Hx. clear Hx.
+        remember (snodes (canon ek dd (dropN (cap ek dd) l))) as y eqn:Hy. clear Hy.
+        lia.
+  Qed.
+
+  Lemma list_depth_le_63 capN : capacity_ok capN -> (list_depth ek capN <= 63)%nat.
+  Proof.
+    intros [C1 C2]. unfold list_depth.
+    destruct (int_log_spec capN C1 C2) as [_ Hl]. specialize (Hl 63%nat C2). lia.
+  Qed.
+End NodeCount.
+
+Section HandleBound.
+  Context {T U : Type}.
+  Variable ek : ekind T.
+  Variable M : umap_impl T U.
+  Variable capN : N.
+  Variable uinv : U -> Prop.
+
+  (* the handle invariant bounds the size of the backing tree by the backing length (the contents
+     without the pending pushes), which is at most the length of the abstract contents *)
+  Theorem hinv_node_bound (h : handle T U) (l : list T) : hinv ek M capN uinv h l ->
+    lenN (nodes (htree h)) <= 2 * cdivN (hblen h) (pf_of ek) + 2 * N.of_nat (list_depth ek capN) + 1 /\
+    lenN (nodes (htree h)) <= 2 * hblen h + 2 * N.of_nat (list_depth ek capN) + 1 /\
+    hblen h <= lenN l /\ hblen h <= capN.
+  Proof.
+    intros ((bl & Hs & Hb & (Hle & _) & _) & Hd & _ & Hc & _).
+    rewrite nodes_shape, Hs, Hd, <- Hb.
+    split; [apply snodes_canon_packed_le|]. split; [apply snodes_canon_le|]. split; [exact Hle|].
+    rewrite Hb. exact Hc.
+  Qed.
+
+  (* ... hence by a quantity in which the capacity does not occur *)
+  Corollary hinv_node_bound_capfree (h : handle T U) (l : list T) : capacity_ok capN -> hinv ek M capN uinv h l ->
+    lenN (nodes (htree h)) <= 2 * cdivN (lenN l) (pf_of ek) + 127.
+  Proof.
+    intros CAP HI. destruct (hinv_node_bound h l HI) as (B & _ & Hle & _).
+    pose proof (list_depth_le_63 ek capN CAP) as Hd.
+    pose proof (cdivN_mono _ _ (pf_of ek) Hle) as Hm. lia.
+  Qed.
+End HandleBound.
+
+Section ReachableBound.
+  Context {T U : Type}.
+  Variable ek : ekind T.
+  Variable M : umap_impl T U.
+  Variable uinv : U -> Prop.
+  Hypothesis EKW : ek_wf ek.
+  Hypothesis TRI : troot_inj ek.
+  Hypothesis ECO : ek_codec_on ek (fun _ => True).
+  Hypothesis UL : umap_lawful ek M uinv.
+
+  (* every state in which a history of plain operations ends is reachable in the sense of Refine.v *)
+  Lemma reachable_plain capN vec_based (os : list (@op T)) rs s st :
+    Forall op_plain os -> model_run ek M Hc capN vec_based init_sys init_state os = Some (rs, s, st) ->
+    reachable ek M Hc capN vec_based (fun _ => True) s st.
+  Proof. intros Hok Em. exists os, rs. split; [apply op_ok_plain; exact Hok|exact Em]. Qed.
+
+  (* in every reachable state, every live handle h (in any register i) represents a list l (what
+     to_vec returns, pending writes included) and its backing tree has at most
+     2 * ceil(hblen h / pf) + 2 * depth + 1 nodes, where hblen h <= |l| is the length of the backing list
+     (the contents without the pending pushes) and depth = list_depth ek capN <= 63 *)
+  Theorem reachable_node_bound capN vec_based (s : @sys T U) (st : state) (i : nat) (h : handle T U) :
+    capacity_ok capN -> reachable ek M Hc capN vec_based (fun _ => True) s st -> rget s i = Some h ->
+    exists l, hinv ek M capN uinv h l /\ to_vec ek M h = Ret l /\ hblen h <= lenN l /\ lenN l <= capN /\
+      lenN (nodes (htree h)) <= 2 * cdivN (hblen h) (pf_of ek) + 2 * N.of_nat (list_depth ek capN) + 1 /\
+      lenN (nodes (htree h)) <= 2 * hblen h + 2 * N.of_nat (list_depth ek capN) + 1 /\
+      lenN (nodes (htree h)) <= 2 * cdivN (lenN l) (pf_of ek) + 127.
+  Proof.
+    intros CAP Hr E.
+    destruct (reachable_bounds ek M Hc capN vec_based uinv (fun _ => True) EKW UL CAP Hc_collision_free TRI ECO s st i h Hr E)
+      as (l & HI & Hl & _ & _ & Hv).
+    destruct (hinv_node_bound ek M capN uinv h l HI) as (B1 & B2 & Hle & _).
+    exists l. split; [exact HI|]. split; [exact Hv|]. split; [exact Hle|]. split; [exact Hl|].
+    split; [exact B1|]. split; [exact B2|]. apply (hinv_node_bound_capfree ek M capN uinv h l CAP HI).
+  Qed.
+End ReachableBound.
+
+(* the matrix *)
+Theorem reachable_node_bound_all :
+  forall (T : Type) (ek : ekind T), kind_ok T ek ->
+  forall (U : Type) (M : umap_impl T U) (uinv : U -> Prop), map_ok U M uinv ->
+  forall (capN : N) (vec_based : bool) (os : list (@op T)) rs s st (i : nat) (h : handle T U),
+  capacity_ok capN -> Forall op_plain os ->
+  model_run ek M Hc capN vec_based init_sys init_state os = Some (rs, s, st) -> rget s i = Some h ->
+  exists l, hinv ek M capN uinv h l /\ to_vec ek M h = Ret l /\ hblen h <= lenN l /\ lenN l <= capN /\
+    lenN (nodes (htree h)) <= 2 * cdivN (hblen h) (pf_of ek) + 2 * N.of_nat (list_depth ek capN) + 1 /\
+    lenN (nodes (htree h)) <= 2 * hblen h + 2 * N.of_nat (list_depth ek capN) + 1 /\
+    lenN (nodes (htree h)) <= 2 * cdivN (lenN l) (pf_of ek) + 127.
+Proof.
+  intros T ek K U M uinv KM capN vec_based os rs s st i h CAP Hok Em E.
+  destruct (kind_ok_laws T ek K) as (EKW & TRI & ECO).
+  apply (reachable_node_bound ek M uinv EKW TRI ECO (map_ok_lawful T ek U M uinv KM) capN vec_based s st i h CAP); [|exact E].
+  apply (reachable_plain ek M capN vec_based os rs s st Hok Em).
+Qed.
+
+(* the bound is independent of capN: spelled out for the clean case of an unpacked kind *)
+Corollary reachable_node_bound_capfree :
+  forall (T : Type) (ek : ekind T), kind_ok T ek ->
+  forall (U : Type) (M : umap_impl T U) (uinv : U -> Prop), map_ok U M uinv ->
+  forall (capN : N) (vec_based : bool) (os : list (@op T)) rs s st (i : nat) (h : handle T U),
+  capacity_ok capN -> Forall op_plain os ->
+  model_run ek M Hc capN vec_based init_sys init_state os = Some (rs, s, st) -> rget s i = Some h ->
+  exists l, to_vec ek M h = Ret l /\ lenN (nodes (htree h)) <= 2 * cdivN (lenN l) (pf_of ek) + 127 /\
+            lenN (nodes (htree h)) <= 2 * lenN l + 127.
+Proof.
+  intros T ek K U M uinv KM capN vec_based os rs s st i h CAP Hok Em E.
+  destruct (reachable_node_bound_all T ek K U M uinv KM capN vec_based os rs s st i h CAP Hok Em E)
+    as (l & _ & Hv & _ & _ & _ & _ & B).
+  exists l. split; [exact Hv|]. split; [exact B|].
+  pose proof (cdivN_le (lenN l) (pf_of ek) (pow2_pos _)). lia.
+Qed.
+
 Print Assumptions run_refines_closed.
 Print Assumptions step_refines_closed.
 Print Assumptions run_refines_uint.
@@ -473,3 +655,11 @@ Print Assumptions silent_ops_invisible_all.
 Print Assumptions hash_invisible_all.
 Print Assumptions rebase_invisible_all.
 Print Assumptions intra_is_flush_all.
+Print Assumptions nodes_shape.
+Print Assumptions snodes_canon_full_eq.
+Print Assumptions snodes_canon_packed_le.
+Print Assumptions hinv_node_bound.
+Print Assumptions hinv_node_bound_capfree.
+Print Assumptions reachable_node_bound.
+Print Assumptions reachable_node_bound_all.
+Print Assumptions reachable_node_bound_capfree.
